@@ -17,7 +17,7 @@ theorem reset_is_new (c : Ctx) : c.reset = ({} : Ctx).pre (c.log ++ c.ipv.map Ev
 
 /-- Every observable component of a reset context is that of `NewCtx()`. -/
 theorem reset_components (c : Ctx) :
-    c.reset.vars = [] ∧ c.reset.chQB = false ∧ c.reset.chJQ = false ∧ c.reset.chHE = false ∧ c.reset.chUE = false ∧
+    c.reset.vars = [] ∧ c.reset.chQB = false ∧ c.reset.bnd = [] ∧
     c.reset.brkD = 0 ∧ c.reset.incD = 0 ∧ c.reset.err = none ∧ c.reset.dfr = [] ∧ c.reset.ipv = [] := by
   simp [Ctx.reset]
 
@@ -51,7 +51,7 @@ theorem reset_releases_once (c : Ctx) :
 /-! Non-vacuity: a context left dirty by a render that stopped inside a region, in a loop, with a pending
     break depth and a pending error. -/
 example :
-    let dirty : Ctx := { vars := [(lit "x", .cntr 3)], chJQ := true, chQB := true, brkD := 2, incD := 1,
+    let dirty : Ctx := { vars := [(lit "x", .cntr 3)], bnd := [.json, .html], chQB := true, brkD := 2, incD := 1,
                          err := some .userFail, dfr := [7], ipv := [8], log := [.acquire 8] }
     (writeKey [(lit "t", [.raw (lit "a\"b"), .tpl (lit "x") [] false [] []])] 20 (lit "t") { c := dirty.reset, w := {} }).st.w.out
       = lit "a\"b" := by decide
